@@ -34,10 +34,10 @@ func (r *rng) intn(n int) int {
 	return int(r.next() % uint64(n))
 }
 
-func (r *rng) bool() bool          { return r.next()&1 == 1 }
-func (r *rng) chance(p int) bool   { return r.intn(100) < p } // p in percent
+func (r *rng) bool() bool              { return r.next()&1 == 1 }
+func (r *rng) chance(p int) bool       { return r.intn(100) < p } // p in percent
 func (r *rng) pick(xs []string) string { return xs[r.intn(len(xs))] }
-func (r *rng) fork(tag uint64) *rng { return newRng(r.next() ^ (tag * 0xD6E8FEB86659FD93)) }
+func (r *rng) fork(tag uint64) *rng    { return newRng(r.next() ^ (tag * 0xD6E8FEB86659FD93)) }
 
 // ---------------------------------------------------------------------------
 // Emitting Gallina terms.
@@ -103,17 +103,19 @@ type violation struct {
 }
 
 type stats struct {
-	Property    string         `json:"property"`
-	Seed        uint64         `json:"seed"`
-	Evaluations int            `json:"evaluations"`
-	Distinct    int            `json:"distinct_nontrivial"`
-	Rule        string         `json:"rule"`
-	Samples     []any          `json:"samples"`
-	Histogram   map[string]int `json:"histogram,omitempty"`
-	CoqCases    int            `json:"coq_cases"`
-	Violations  []violation    `json:"violations"`
-	Notes       []string       `json:"notes,omitempty"`
-	Extra       map[string]any `json:"extra,omitempty"`
+	Property        string         `json:"property"`
+	Seed            uint64         `json:"seed"`
+	Evaluations     int            `json:"evaluations"`
+	Distinct        int            `json:"distinct_nontrivial"`
+	Rule            string         `json:"rule"`
+	Samples         []any          `json:"samples"`
+	Histogram       map[string]int `json:"histogram,omitempty"`
+	CoqCases        int            `json:"coq_cases"`
+	Violations      []violation    `json:"violations"`
+	TotalViolations int            `json:"total_violations"`
+	perKey          map[string]int
+	Notes           []string       `json:"notes,omitempty"`
+	Extra           map[string]any `json:"extra,omitempty"`
 }
 
 func newStats(prop string, seed uint64) *stats {
@@ -128,8 +130,19 @@ func (s *stats) sample(v any) {
 	}
 }
 
+// violate records a violation; at most 2 per (kind, pattern) and 3000 in total, so that
+// one root cause does not crowd out the others.
 func (s *stats) violate(v violation) {
-	if len(s.Violations) < 200 {
+	if s.perKey == nil {
+		s.perKey = map[string]int{}
+	}
+	k := v.Kind
+	if p, ok := v.Detail["pattern"].(string); ok {
+		k += "\x00" + p
+	}
+	s.perKey[k]++
+	s.TotalViolations++
+	if s.perKey[k] <= 2 && len(s.Violations) < 3000 {
 		s.Violations = append(s.Violations, v)
 	}
 }
